@@ -6,6 +6,8 @@ import Mathlib.Tactic.Ring
 import Mathlib.Tactic.Linarith
 import Mathlib.Tactic.FieldSimp
 import Mathlib.Algebra.Order.Field.Rat
+import Mathlib.Data.Rat.Floor
+import Mathlib.Tactic.Positivity
 
 namespace OdlModel.Partition
 
@@ -53,5 +55,471 @@ theorem Valid.c_mono {P : Part1} (hv : Valid P) {i j : Nat} (hij : i ≤ j) (hj 
       linarith
     · have : i = j + 1 := by omega
       subst this; exact le_refl _
+
+
+theorem bdry_lt_succ (P : Part1) (hv : Valid P) (hn : Nondegenerate P) (k : Nat)
+    (hk : k < P.n) : P.bdry k < P.bdry (k + 1) := by
+  rcases Nat.eq_zero_or_pos k with rfl | hk0
+  · rw [bdry_zero P hv.pos]
+    rcases Nat.lt_or_ge 1 P.n with h | h
+    · rw [bdry_succ_mid P 0 h]
+      have := hv.mono 0 h
+      have := hv.lo_le
+      linarith
+    · rw [bdry_ge P 1 h]
+      rcases hn with h2 | h2
+      · omega
+      · exact h2
+  · rw [bdry_mid P k hk0 hk]
+    have e : k - 1 + 1 = k := by omega
+    have h1 := hv.mono (k - 1) (by omega)
+    rw [e] at h1
+    rcases Nat.lt_or_ge (k + 1) P.n with h | h
+    · rw [bdry_succ_mid P k h]
+      have := hv.mono k h
+      linarith
+    · rw [bdry_ge P (k + 1) h]
+      have : k = P.n - 1 := by omega
+      have := hv.le_hi
+      subst k
+      linarith
+
+theorem Valid.c_strict {P : Part1} (hv : Valid P) {i j : Nat} (hij : i < j) (hj : j < P.n) :
+    P.c i < P.c j := by
+  have h1 := hv.mono i (by omega)
+  have h2 := hv.c_mono (i := i + 1) (j := j) (by omega) hj
+  linarith
+
+theorem wf_of_valid (P : Part1) (hv : Valid P) : P.wf = true := by
+  have h0 := hv.c_mono (i := 0) (j := P.n - 1) (by omega) (by have := hv.pos; omega)
+  have := hv.lo_le
+  have := hv.le_hi
+  simp only [Part1.wf, Bool.and_eq_true, decide_eq_true_eq, List.all_eq_true, List.mem_range]
+  refine ⟨⟨⟨⟨hv.pos, ?_⟩, by linarith⟩, hv.lo_le⟩, hv.le_hi⟩
+  intro i hi
+  exact hv.mono i (by omega)
+
+theorem valid_of_wf (P : Part1) (h : P.wf = true) : Valid P := by
+  simp only [Part1.wf, Bool.and_eq_true, decide_eq_true_eq, List.all_eq_true, List.mem_range] at h
+  obtain ⟨⟨⟨⟨h1, h2⟩, _⟩, h4⟩, h5⟩ := h
+  exact ⟨h1, fun i hi => h2 i (by omega), h4, h5⟩
+
+theorem mk?_of_valid (P : Part1) (hv : Valid P) : P.mk? = some P := by
+  unfold Part1.mk?; rw [if_pos (wf_of_valid P hv)]
+
+theorem sliceIndices_pos (s e : Nat) (st : Int) (hst : 0 < st) (n : Nat) (hs : s ≤ n) (he : e ≤ n) :
+    sliceIndices (some (s : Int)) (some (e : Int)) st n = ((s : Int), (e : Int)) := by
+  unfold sliceIndices
+  simp only []
+  have h1 : ¬ st < 0 := by omega
+  simp only [h1, if_false]
+  have : ¬ ((s : Int) < 0) := by omega
+  have : ¬ ((e : Int) < 0) := by omega
+  simp [*]
+
+/-- The sub-partition selected by cells `s, s+st, …` below `e`. -/
+def subPart (P : Part1) (s e st : Nat) : Part1 :=
+  ⟨(e - s - 1) / st + 1, fun i => P.c (s + i * st), P.bdry s, P.bdry e⟩
+
+theorem node_ge_bdry (P : Part1) (hv : Valid P) (i : Nat) (hi : i < P.n) : P.bdry i ≤ P.c i := by
+  rcases Nat.eq_zero_or_pos i with rfl | h0
+  · rw [bdry_zero P hv.pos]; exact hv.lo_le
+  · rw [bdry_mid P i h0 hi]
+    have e : i - 1 + 1 = i := by omega
+    have h1 := hv.mono (i - 1) (by omega)
+    rw [e] at h1
+    linarith
+
+theorem node_le_bdry (P : Part1) (hv : Valid P) (i : Nat) (hi : i < P.n) : P.c i ≤ P.bdry (i + 1) := by
+  rcases Nat.lt_or_ge (i + 1) P.n with h | h
+  · rw [bdry_succ_mid P i h]
+    have := hv.mono i h
+    linarith
+  · rw [bdry_ge P (i + 1) h]
+    have : i = P.n - 1 := by omega
+    subst this; exact hv.le_hi
+
+theorem sub_valid (P : Part1) (hv : Valid P) (s e st : Nat) (hse : s < e) (hen : e ≤ P.n)
+    (hst : 1 ≤ st) : Valid (subPart P s e st) := by
+  have hdiv : (e - s - 1) / st * st ≤ e - s - 1 := Nat.div_mul_le_self _ _
+  refine ⟨by simp [subPart], ?_, ?_, ?_⟩
+  · intro i hi
+    simp only [subPart] at hi ⊢
+    have h1 : i + 1 ≤ (e - s - 1) / st := by omega
+    have h2 : (i + 1) * st ≤ e - s - 1 := (Nat.le_div_iff_mul_le (by omega)).mp h1
+    have h3 : (i + 1) * st = i * st + st := Nat.succ_mul i st
+    exact hv.c_strict (by omega) (by omega)
+  · simp only [subPart, Nat.zero_mul, Nat.add_zero]
+    exact node_ge_bdry P hv s (by omega)
+  · simp only [subPart, Nat.add_sub_cancel]
+    have h1 : s + (e - s - 1) / st * st ≤ e - 1 := by omega
+    have h2 := hv.c_mono h1 (by omega)
+    have h3 := node_le_bdry P hv (e - 1) (by omega)
+    have e1 : e - 1 + 1 = e := by omega
+    rw [e1] at h3
+    linarith
+
+theorem getSlice_core (P : Part1) (hv : Valid P) (s e st : Nat) (hse : s < e) (hen : e ≤ P.n)
+    (hst : 1 ≤ st) (step : Option Int) (hstep : step.getD 1 = (st : Int)) :
+    P.getSlice (some (s : Int)) (some (e : Int)) step = some (subPart P s e st) := by
+  have hstp : (0 : Int) < st := by omega
+  unfold Part1.getSlice
+  have c1 : ((some (s : Int)).isSome && (some (s : Int) == some (e : Int)) ||
+      (some (s : Int) == some (P.n : Int))) = false := by
+    simp; constructor <;> omega
+  rw [c1]
+  simp only [Bool.false_eq_true, if_false, hstep]
+  rw [if_neg (by omega), sliceIndices_pos s e 1 (by omega) P.n (by omega) hen,
+    sliceIndices_pos s e st hstp P.n (by omega) hen]
+  simp only []
+  rw [if_neg (by omega)]
+  have hm : sliceLen (s : Int) (e : Int) (st : Int) = (e - s - 1) / st + 1 := by
+    unfold sliceLen
+    rw [if_pos hstp, if_pos (by omega)]
+    have : ((e : Int) - s - 1) = ((e - s - 1 : Nat) : Int) := by omega
+    rw [this]
+    norm_cast
+  have hf : (fun (i : Nat) => P.c ((s : Int) + (i : Int) * (st : Int)).toNat) =
+      fun i => P.c (s + i * st) := by
+    funext i
+    have : ((s : Int) + (i : Int) * (st : Int)) = ((s + i * st : Nat) : Int) := by push_cast; ring
+    rw [this, Int.toNat_natCast]
+  rw [hm, hf, Int.toNat_natCast, Int.toNat_natCast]
+  exact mk?_of_valid _ (sub_valid P hv s e st hse hen hst)
+
+/-- `sum f n = f 0 + … + f (n-1)`. -/
+def sumTo (f : Nat → Rat) : Nat → Rat
+  | 0 => 0
+  | k + 1 => sumTo f k + f k
+
+theorem cell_size_eq_bdry_diff (P : Part1) (hn : 2 ≤ P.n) (i : Nat) (hi : i < P.n) :
+    P.cellSize i = P.bdry (i + 1) - P.bdry i := by
+  unfold Part1.cellSize
+  rw [if_neg (by omega)]
+  rcases Nat.lt_or_ge (i + 1) P.n with h | h
+  · rw [if_neg (by omega), bdry_succ_mid P i h]
+    rcases Nat.eq_zero_or_pos i with rfl | h0
+    · rw [if_pos rfl, bdry_zero P (by omega)]; ring
+    · rw [if_neg (by omega), bdry_mid P i h0 hi]; ring
+  · have e : i + 1 = P.n := by omega
+    rw [if_pos e, e, bdry_last, bdry_mid P i (by omega) hi]
+    have e1 : P.n - 1 = i := by omega
+    have e2 : P.n - 2 = i - 1 := by omega
+    rw [e1, e2]; ring
+
+theorem sum_cells_upto (P : Part1) (hn : 2 ≤ P.n) (m : Nat) (hm : m ≤ P.n) :
+    sumTo P.cellSize m = P.bdry m - P.lo := by
+  induction m with
+  | zero => simp [sumTo, bdry_zero P (by omega)]
+  | succ m ih =>
+    rw [sumTo, ih (by omega), cell_size_eq_bdry_diff P hn m (by omega)]; ring
+
+theorem cell_sizes_sum_of_two_le (P : Part1) (hn : 2 ≤ P.n) :
+    sumTo P.cellSize P.n = P.hi - P.lo := by
+  rw [sum_cells_upto P hn P.n (le_refl _), bdry_last]
+
+theorem cell_sizes_sum_fails_len1 :
+    ∃ P : Part1, Valid P ∧ P.n = 1 ∧ sumTo P.cellSize P.n ≠ P.hi - P.lo := by
+  refine ⟨⟨1, fun _ => 1 / 2, 0, 1⟩, ⟨by decide, ?_, by norm_num, by norm_num⟩, rfl, ?_⟩
+  · intro i hi; simp at hi
+  · simp [sumTo, Part1.cellSize]
+
+theorem searchFrom_spec (f : Nat → Rat) (v : Rat) (fuel k : Nat) :
+    k ≤ searchFrom f v fuel k ∧ searchFrom f v fuel k ≤ k + fuel ∧
+    (∀ j, k ≤ j → j < searchFrom f v fuel k → f j < v) ∧
+    (searchFrom f v fuel k < k + fuel → v ≤ f (searchFrom f v fuel k)) := by
+  induction fuel generalizing k with
+  | zero => simp [searchFrom]; intro j h1 h2; omega
+  | succ fuel ih =>
+    unfold searchFrom
+    split_ifs with h
+    · refine ⟨le_refl _, by omega, ?_, fun _ => h⟩
+      intro j h1 h2; omega
+    · obtain ⟨a, b, c, d⟩ := ih (k + 1)
+      refine ⟨by omega, by omega, ?_, ?_⟩
+      · intro j h1 h2
+        rcases Nat.eq_or_lt_of_le h1 with rfl | h3
+        · exact lt_of_not_ge h
+        · exact c j h3 h2
+      · intro h2; exact d (by omega)
+
+theorem searchLeft_spec (f : Nat → Rat) (m : Nat) (v : Rat) :
+    searchLeft f m v ≤ m ∧ (∀ j, j < searchLeft f m v → f j < v) ∧
+    (searchLeft f m v < m → v ≤ f (searchLeft f m v)) := by
+  unfold searchLeft
+  obtain ⟨_, b, c, d⟩ := searchFrom_spec f v m 0
+  refine ⟨by simpa using b, fun j hj => c j (Nat.zero_le _) hj, fun h => d (by simpa using h)⟩
+
+theorem index_spec (P : Part1) (hv : Valid P)
+    (hmono : ∀ k, k < P.n → P.bdry k < P.bdry (k + 1)) (v : Rat)
+    (h1 : P.lo ≤ v) (h2 : v ≤ P.hi) :
+    ∃ k : Nat, P.index v = some (k : Int) ∧ k < P.n ∧ P.bdry k ≤ v ∧
+      (v < P.bdry (k + 1) ∨ (k + 1 = P.n ∧ v = P.hi)) ∧
+      P.indexFloat v = some ((k : Rat) + (v - P.bdry k) / (P.bdry (k + 1) - P.bdry k)) := by
+  obtain ⟨hr1, hr2, hr3⟩ := searchLeft_spec P.bdry (P.n + 1) v
+  have hdom : ¬ (v < P.lo ∨ P.hi < v) := by
+    rintro (h | h) <;> linarith
+  have hpos := hv.pos
+  -- the insertion point is at most n because bdry n = hi ≥ v
+  have hrn : searchLeft P.bdry (P.n + 1) v ≤ P.n := by
+    by_contra hc
+    have := hr2 P.n (by omega)
+    rw [bdry_last] at this
+    linarith
+  have hle : v ≤ P.bdry (searchLeft P.bdry (P.n + 1) v) := hr3 (by omega)
+  unfold Part1.index Part1.indexFloat
+  rw [if_neg hdom, if_neg hdom]
+  simp only []
+  generalize searchLeft P.bdry (P.n + 1) v = r at *
+  by_cases heq : P.bdry r = v
+  · by_cases hrl : r = P.n
+    · -- v = hi: last cell, closed on the right
+      subst hrl
+      have e : P.n - 1 + 1 = P.n := by omega
+      have hprev := hmono (P.n - 1) (by omega)
+      rw [e, heq] at hprev
+      have hc : ((P.n - 1 : Nat) : Rat) = (P.n : Rat) - 1 := by
+        rw [Nat.cast_sub hpos]; simp
+      refine ⟨P.n - 1, ?_, by omega, le_of_lt hprev, Or.inr ⟨e, ?_⟩, ?_⟩
+      · rw [if_neg (by simp)]; congr 1; omega
+      · rw [← heq, bdry_last]
+      · rw [if_pos heq, e, heq, hc]
+        have hD : v - P.bdry (P.n - 1) ≠ 0 := by linarith
+        rw [div_self hD]; simp
+    · refine ⟨r, ?_, by omega, le_of_eq heq, Or.inl ?_, ?_⟩
+      · rw [if_pos ⟨heq, hrl⟩]
+      · rw [← heq]; exact hmono r (by omega)
+      · rw [if_pos heq, heq]; simp
+  · have hr0 : 0 < r := by
+      rcases Nat.eq_zero_or_pos r with rfl | h
+      · exfalso; apply heq
+        rw [bdry_zero P hpos] at hle ⊢
+        linarith
+      · exact h
+    have hlt : v < P.bdry r := lt_of_le_of_ne hle (Ne.symm heq)
+    have hprev := hr2 (r - 1) (by omega)
+    have e : r - 1 + 1 = r := by omega
+    have hc : ((r - 1 : Nat) : Rat) = (r : Rat) - 1 := by
+      rw [Nat.cast_sub hr0]; simp
+    refine ⟨r - 1, ?_, by omega, le_of_lt hprev, Or.inl (by rw [e]; exact hlt), ?_⟩
+    · rw [if_neg (fun h => heq h.1)]; congr 1; omega
+    · rw [if_neg heq, e, hc]
+      have hD : P.bdry r - P.bdry (r - 1) ≠ 0 := by linarith
+      congr 1
+      field_simp
+      ring
+
+theorem sub_bdry (P : Part1) (s e : Nat) (hse : s < e) (hen : e ≤ P.n) (k : Nat) (hk : k ≤ e - s) :
+    (subPart P s e 1).bdry k = P.bdry (s + k) := by
+  have hn : (subPart P s e 1).n = e - s := by simp [subPart]; omega
+  rcases Nat.eq_zero_or_pos k with rfl | h0
+  · rw [bdry_zero _ (by omega)]; rfl
+  · rcases Nat.lt_or_ge k (e - s) with h | h
+    · rw [bdry_mid _ k h0 (by omega), bdry_mid P (s + k) (by omega) (by omega)]
+      simp only [subPart, Nat.mul_one]
+      have : s + k - 1 = s + (k - 1) := by omega
+      rw [this]
+    · rw [bdry_ge _ k (by omega)]
+      have : s + k = e := by omega
+      rw [this]; rfl
+
+/-! uniform -/
+
+theorem halfCount_cases (bl br : Bool) :
+    halfCount bl br = (if bl then (1:Rat)/2 else 0) + (if br then (1:Rat)/2 else 0) := by
+  cases bl <;> cases br <;> simp [halfCount] <;> norm_num
+
+theorem uniform_nodes (lo hi : Rat) (n : Nat) (hn : 2 ≤ n) (bl br : Bool) (i : Nat) :
+    (uniformAxis lo hi n bl br).c i =
+      lo + ((i : Rat) + (if bl then 0 else 1 / 2)) * ((hi - lo) / ((n : Rat) - halfCount bl br)) := by
+  have h2 : (2 : Rat) ≤ n := by exact_mod_cast hn
+  have hn0 : (n : Rat) ≠ 0 := by linarith
+  have hn1 : (n : Rat) - 1 ≠ 0 := by linarith
+  have hn2 : 2 * (n : Rat) - 1 ≠ 0 := by linarith
+  have hn3 : (n : Rat) - 1 / 2 ≠ 0 := by linarith
+  simp only [uniformAxis]
+  rw [if_neg (by omega)]
+  cases bl <;> cases br <;> simp [halfCount] <;> field_simp <;> first | ring1 | (left; ring1)
+
+
+/-- Grid stride of the uniform axis (what `cell_sides` returns for n ≥ 2). -/
+theorem uniform_stride (lo hi : Rat) (n : Nat) (hn : 2 ≤ n) (bl br : Bool) :
+    ((uniformAxis lo hi n bl br).c (n - 1) - (uniformAxis lo hi n bl br).c 0) / ((n : Rat) - 1) =
+      (hi - lo) / ((n : Rat) - halfCount bl br) := by
+  have h2 : (2 : Rat) ≤ n := by exact_mod_cast hn
+  have hn1 : (n : Rat) - 1 ≠ 0 := by linarith
+  rw [uniform_nodes lo hi n hn, uniform_nodes lo hi n hn]
+  have : ((n - 1 : Nat) : Rat) = (n : Rat) - 1 := by rw [Nat.cast_sub (by omega)]; simp
+  rw [this]
+  field_simp
+  ring
+
+theorem isClose_exact_self (a : Rat) : isClose Tol.exact a a = true := by
+  simp [isClose, Tol.exact, rabs]
+
+theorem isClose_exact_iff (a b : Rat) : isClose Tol.exact a b = true ↔ a = b := by
+  unfold isClose rabs Tol.exact
+  simp only [decide_eq_true_eq, zero_mul, add_zero]
+  constructor
+  · intro h
+    split_ifs at h with h1 <;> linarith
+  · rintro rfl; simp
+
+
+theorem halfCount_lt (bl br : Bool) (n : Nat) (hn : 2 ≤ n) : 0 < (n : Rat) - halfCount bl br := by
+  have h2 : (2 : Rat) ≤ n := by exact_mod_cast hn
+  cases bl <;> cases br <;> simp [halfCount] <;> linarith
+
+theorem uniform_valid (lo hi : Rat) (hlh : lo < hi) (n : Nat) (hn : 1 ≤ n) (bl br : Bool) :
+    Valid (uniformAxis lo hi n bl br) := by
+  rcases Nat.lt_or_ge n 2 with h1 | h2
+  · have : n = 1 := by omega
+    subst this
+    refine ⟨le_refl _, fun i hi => by simp [uniformAxis] at hi, ?_, ?_⟩ <;>
+    cases bl <;> cases br <;> simp [uniformAxis] <;> norm_num <;> linarith
+  · have hpos := halfCount_lt bl br n h2
+    have hh : 0 < (hi - lo) / ((n : Rat) - halfCount bl br) := div_pos (by linarith) hpos
+    have hn' : (uniformAxis lo hi n bl br).n = n := rfl
+    refine ⟨hn, ?_, ?_, ?_⟩
+    · intro i _
+      rw [uniform_nodes lo hi n h2, uniform_nodes lo hi n h2]
+      push_cast
+      nlinarith
+    · rw [uniform_nodes lo hi n h2]
+      have : (0 : Rat) ≤ (if bl then 0 else 1 / 2) := by split_ifs <;> norm_num
+      have hl : (uniformAxis lo hi n bl br).lo = lo := rfl
+      rw [hl]
+      push_cast
+      nlinarith
+    · rw [uniform_nodes lo hi n h2, hn']
+      have hc : ((n - 1 : Nat) : Rat) = (n : Rat) - 1 := by rw [Nat.cast_sub (by omega)]; simp
+      have hhi : (uniformAxis lo hi n bl br).hi = hi := rfl
+      rw [hc, hhi]
+      have key : hi = lo + ((n : Rat) - halfCount bl br) * ((hi - lo) / ((n : Rat) - halfCount bl br)) := by
+        field_simp; ring
+      have hoff : ((n : Rat) - 1 + (if bl then 0 else 1 / 2)) ≤ (n : Rat) - halfCount bl br := by
+        cases bl <;> cases br <;> simp [halfCount] <;> linarith
+      nlinarith
+
+
+theorem uniform_diff (lo hi : Rat) (n : Nat) (hn : 2 ≤ n) (bl br : Bool) (i : Nat) :
+    (uniformAxis lo hi n bl br).c (i + 1) - (uniformAxis lo hi n bl br).c i =
+      (hi - lo) / ((n : Rat) - halfCount bl br) := by
+  rw [uniform_nodes lo hi n hn, uniform_nodes lo hi n hn]
+  push_cast
+  ring
+
+theorem uniform_cellSide (lo hi : Rat) (hlh : lo < hi) (n : Nat) (hn : 2 ≤ n) (bl br : Bool) :
+    (uniformAxis lo hi n bl br).cellSide Tol.exact = some ((hi - lo) / ((n : Rat) - halfCount bl br)) := by
+  have hpos := halfCount_lt bl br n hn
+  have hh : 0 < (hi - lo) / ((n : Rat) - halfCount bl br) := div_pos (by linarith) hpos
+  have hn' : (uniformAxis lo hi n bl br).n = n := rfl
+  have hu : (uniformAxis lo hi n bl br).isUniform Tol.exact = true := by
+    unfold Part1.isUniform
+    rw [List.all_eq_true]
+    intro i _
+    have := uniform_diff lo hi n hn bl br 0
+    rw [uniform_diff lo hi n hn bl br i, this]
+    exact isClose_exact_self _
+  unfold Part1.cellSide
+  rw [hu]
+  simp only [Bool.not_true, Bool.false_eq_true, if_false]
+  rw [hn', if_pos (show 1 < n by omega), uniform_stride lo hi n hn, if_neg (ne_of_gt hh)]
+
+theorem uniform_nodesOnBdry (lo hi : Rat) (hlh : lo < hi) (n : Nat) (hn : 2 ≤ n) (bl br : Bool) :
+    (uniformAxis lo hi n bl br).nodesOnBdry Tol.exact = (bl, br) := by
+  have hpos := halfCount_lt bl br n hn
+  have hh : 0 < (hi - lo) / ((n : Rat) - halfCount bl br) := div_pos (by linarith) hpos
+  have hn' : (uniformAxis lo hi n bl br).n = n := rfl
+  have hc : ((n - 1 : Nat) : Rat) = (n : Rat) - 1 := by rw [Nat.cast_sub (by omega)]; simp
+  have key : hi = lo + ((n : Rat) - halfCount bl br) * ((hi - lo) / ((n : Rat) - halfCount bl br)) := by
+    field_simp; ring
+  unfold Part1.nodesOnBdry
+  rw [hn', uniform_nodes lo hi n hn, uniform_nodes lo hi n hn, hc]
+  have hl : (uniformAxis lo hi n bl br).lo = lo := rfl
+  have hhi : (uniformAxis lo hi n bl br).hi = hi := rfl
+  rw [hl, hhi]
+  generalize (hi - lo) / ((n : Rat) - halfCount bl br) = h at *
+  ext
+  · simp only
+    rw [Bool.eq_iff_iff, isClose_exact_iff]
+    cases bl <;> simp <;> nlinarith
+  · simp only
+    rw [Bool.eq_iff_iff, isClose_exact_iff]
+    cases bl <;> cases br <;> simp [halfCount] at key ⊢ <;> nlinarith
+
+
+theorem roundHalfEven_int (n : Int) : roundHalfEven (n : Rat) = n := by
+  unfold roundHalfEven
+  simp [Rat.floor_intCast]
+
+theorem rabs_zero : rabs 0 = 0 := by simp [rabs]
+
+/-- All ways of giving three (or four) consistent parameters complete to the same axis. -/
+theorem completeAxis_agree (t : Tol) (eps : Rat) (ht1 : 0 ≤ t.atol) (ht2 : 0 ≤ t.rtol) (he : 0 ≤ eps)
+    (lo hi d : Rat) (n : Int) (bl br : Bool) (hd : d ≠ 0)
+    (hcons : ((n : Rat) - halfCount bl br) * d = hi - lo) :
+    completeAxis t eps (some lo) (some hi) (some n) none bl br = some (lo, hi, n) ∧
+    completeAxis t eps (some lo) none (some n) (some d) bl br = some (lo, hi, n) ∧
+    completeAxis t eps none (some hi) (some n) (some d) bl br = some (lo, hi, n) ∧
+    completeAxis t eps (some lo) (some hi) none (some d) bl br = some (lo, hi, n) ∧
+    completeAxis t eps (some lo) (some hi) (some n) (some d) bl br = some (lo, hi, n) := by
+  have rabs_nonneg : ∀ x : Rat, 0 ≤ rabs x := by
+    intro x; unfold rabs; split_ifs <;> linarith
+  refine ⟨rfl, ?_, ?_, ?_, ?_⟩
+  · simp only [completeAxis]
+    rw [hcons]; simp
+  · simp only [completeAxis]
+    rw [hcons]; simp
+  · simp only [completeAxis]
+    rw [if_neg hd]
+    have hn : (hi - lo) / d + halfCount bl br = (n : Rat) := by
+      rw [← hcons]; field_simp; ring1
+    simp only [hn, roundHalfEven_int, sub_self, rabs_zero]
+    rw [if_neg (by linarith)]
+  · simp only [completeAxis]
+    have : lo + ((n : Rat) - halfCount bl br) * d = hi := by rw [hcons]; ring1
+    rw [this]
+    have : isClose t hi hi = true := by
+      unfold isClose
+      simp only [sub_self, rabs_zero, decide_eq_true_eq]
+      have := rabs_nonneg hi
+      positivity
+    rw [this]; rfl
+
+theorem insertAt_block (P : Part) (i : Nat) (hi : i ≤ P.length) (parts : List Part) :
+    insertAt P i parts = P.take i ++ parts.flatten ++ P.drop i := by
+  induction parts generalizing P i with
+  | nil => simp [insertAt]
+  | cons Q rest ih =>
+    simp only [insertAt]
+    rw [ih _ _ (by simp; omega)]
+    have h1 : (List.take i P ++ Q ++ List.drop i P).take (i + Q.length) = List.take i P ++ Q := by
+      rw [List.take_append_of_le_length (by simp; omega)]
+      rw [List.take_of_length_le (by simp)]
+    have h2 : (List.take i P ++ Q ++ List.drop i P).drop (i + Q.length) = List.drop i P := by
+      rw [List.drop_append_of_le_length (by simp; omega)]
+      rw [List.drop_of_length_le (by simp)]
+      simp
+    rw [h1, h2]
+    simp [List.flatten_cons, List.append_assoc]
+
+
+theorem getInt_nat (P : Part1) (hv : Valid P) (k : Nat) (hk : k < P.n) :
+    P.getInt (k : Int) = some (subPart P k (k + 1) 1) := by
+  unfold Part1.getInt
+  simp only []
+  rw [if_neg (by omega), if_neg (by omega)]
+  have : ((k : Int) + 1) = ((k + 1 : Nat) : Int) := by push_cast; ring
+  rw [this]
+  exact getSlice_core P hv k (k + 1) 1 (by omega) (by omega) (le_refl _) none rfl
+
+theorem getInt_neg (P : Part1) (k : Nat) (hk : k < P.n) :
+    P.getInt ((k : Int) - P.n) = P.getInt (k : Int) := by
+  have h1 : ((k : Int) - P.n < 0) := by omega
+  have h2 : ¬ ((k : Int) < 0) := by omega
+  have h3 : (k : Int) - P.n + P.n = k := by omega
+  unfold Part1.getInt
+  simp only [h1, h2, h3, if_true, if_false]
 
 end OdlModel.Partition
